@@ -6,6 +6,7 @@ import (
 	"encoding/json"
 	"fmt"
 	"os"
+	"strings"
 	"testing"
 	"testing/synctest"
 
@@ -51,7 +52,9 @@ func c10Gen(rt *rapid.T) c10Plan {
 		p.Trace = "tworounds"
 	case "stale-batch":
 		p.Trace = "twobatches"
-	case "forge-synth", "forge-synth-named", "forge-synth-json":
+	case "forge-synth-named":
+		p.Trace = rapid.SampledFrom([]string{"honest", "twobatches", "honest-twins", "honest-twins"}).Draw(rt, "trace")
+	case "forge-synth", "forge-synth-json":
 		p.Trace = rapid.SampledFrom([]string{"honest", "twobatches"}).Draw(rt, "trace")
 	case "later":
 		p.Trace = rapid.SampledFrom([]string{"twobatches", "twobatches", "honest"}).Draw(rt, "trace")
@@ -81,6 +84,11 @@ func nameIndex(tr *ceremonyTrace, name string) int {
 func c10Run(t *testing.T, st *vstat.Stats, p c10Plan) (v *viol) {
 	tr, err := getTrace(t, p.Trace, p.N, p.T)
 	if err != nil {
+		if strings.HasSuffix(p.Trace, "-twins") {
+			// the same honest ceremony completes under ordinary names: with names that differ only in letter case some
+			// participant's own, correctly signed contributions are not taken as that participant's
+			return violf("own-contribution-not-effective:case-twins", "an honest ceremony of participants %v does not complete: %v", world.CaseTwinNames(p.N), err)
+		}
 		return violf("harness", "trace: %v", err)
 	}
 	el := eligibleSteps(tr)
